@@ -114,6 +114,15 @@ def config(prop, tier, scn, variant):
         if prop == 'C10':
             cfg['loops'] = lambda st: _loops_C10(st) if (st.path and st.path[-1][0] == 'resume') \
                 else []
+    elif variant == 'resume1':
+        # every batch boundary of a (long) run as a resume point, followed for ONE more batch only:
+        # a stale checkpoint shows at once as a re-evaluated point (M-once) or as a state that differs
+        # from the in-memory continuation; cost is linear in the length of the run
+        def alphabet(st):
+            if any(a[0] == 'resume' for a in st.path):
+                return [('step',)] if st.path[-1][0] == 'resume' else []
+            return [('step',), ('resume',)]
+        cfg.update(alphabet=alphabet, R=1, max_states=20000)
     elif variant == 'resume2':
         cfg.update(alphabet=_alpha(('step',), ('resume',)), R=2)
     elif variant == 'resume3':
@@ -241,12 +250,14 @@ SCENARIOS = dict(
     C05=dict(quick=['gauss_s', 'gauss_d', 'wrap_net', 'blob_two_obj',
                     'net2_tanh:resume/0/2+resume/1/2', 'two_split', 'nlb',
                     'b7_update:resume/0/2+resume/1/2+slices/0/2+slices/1/2',
-                    'const:resume/0/2+resume/1/2'],
+                    'const:resume/0/2+resume/1/2',
+                    'long_b5:resume1/0/3+resume1/1/3+resume1/2/3'],
              thorough=['gauss', 'gauss_s', 'gauss_d', 'gauss_net', 'two', 'ring_net', 'half', 'wrap',
                        'wrap_net', 'g3_pool_s', 'blob_float', 'blob_int_vec', 'blob_two_obj',
                        'blob_array_pool', 'blob_struct_dictfn', 'blob_f32_inplace',
                        'dictfn_vec_net', 'b7_update', 'nlb', 'nlb_ring', 'b1', 'empty_d', 'two_split',
-                       'ring_split_net', 'const', 'nuisance3_net', 'funnel_net', 'g5', 'net2_tanh']),
+                       'ring_split_net', 'const', 'nuisance3_net', 'funnel_net', 'g5', 'net2_tanh',
+                       'long_b5:resume1']),
     C10=dict(quick=['gauss_s', 'b7_update', 'half', 'gauss_d', 'nlb', 'const:slices+resume',
                     'cross_split:resume'],
              thorough=['gauss', 'gauss_s', 'gauss_d', 'b7_update', 'half', 'b1', 'two', 'wrap_net',
